@@ -489,8 +489,8 @@ Definition st_evo (s : state) (t : nat) : option state :=
 Definition st_evw (s : state) (t w : nat) : option state :=
   if Nat.eqb t w then
     match wpc_of s w with
-    | WStart1 => if wkpend (wk s w) then None else Some (set_wpc w WLoop (set_kpend w true s))
-    | WLoop => if wkpend (wk s w) then Some (set_wpc w WGot (set_kpend w false s)) else None
+    | WStart1 => if wkpend (wk s w) then None else Some (set_wk (upd (wk s) w (mkW WLoop (wkicked (wk s w)) true)) s)
+    | WLoop => if wkpend (wk s w) then Some (set_wk (upd (wk s) w (mkW WGot (wkicked (wk s w)) false)) s) else None
     | _ => None
     end
   else None.
